@@ -344,6 +344,34 @@ class Engine(object):
             raise StopExploration()
         return False
 
+    def sample_str(self, s, why, prefer="x 1\"{"):
+        """Continue the current path on ONE concrete value of a symbolic string (used where text reaches code outside the
+        encoding, e.g. a C decoder).  Each symbolic character is fixed to the first feasible character of `prefer` (else to a
+        model value) and the choice is added to the path condition, so a violation found afterwards carries these values and is
+        replayed like any other.  A path that passes after sampling decides nothing: it is registered as inconclusive."""
+        cps = getattr(s, "cps", None)
+        if cps is None:
+            return s
+        out = []
+        sampled = False
+        for c in cps:
+            if isinstance(c, int):
+                out.append(c)
+                continue
+            sampled = True
+            val = None
+            for ch in prefer:
+                if self._check(c == ord(ch)):
+                    val = ord(ch)
+                    break
+            if val is None:
+                val = self.model().cp(c)
+            self.solver.add(c == val)
+            out.append(val)
+        if sampled:
+            Inconclusive("path continued on one sampled value of a symbolic string (%s); a pass on it decides nothing" % why)
+        return "".join(map(chr, out))
+
     def note_sample(self, fn):
         """Register a callable(ModelView)->json-able describing the inputs of the current path."""
         self.sample_fn = fn
